@@ -1873,6 +1873,11 @@ def bipartite_random_regular(l, r, d, seed=None):
                     break
             if failure:
                 return bipartite_random_regular(l, r, d)
+            # a good edge exists: use it, otherwise position i stays
+            # without edge and the graph is not regular
+            G.add_edge(A[ea], B[eb])
+            A[i], A[ea] = A[ea], A[i]
+            B[i], B[eb] = B[eb], B[i]
 
     return G
 
